@@ -13,6 +13,8 @@
  */
 #include ARCH_FILE
 #include <assert.h>
+#undef assert /* the repo is built with -DNDEBUG: use CBMC assertions, which NDEBUG does not remove */
+#define assert(c) __CPROVER_assert((c), #c)
 
 volatile int imb_errno;
 _Bool nondet_bool(void);
@@ -163,6 +165,9 @@ main(void)
                 if (sync_aead(&J[i])) ranH[i] = 0;
         }
         __CPROVER_assume(Inv());
+        unsigned done_before = 0, done_after = 0;
+        for (int i = 0; i < NJ; i++)
+                done_before += inflight[i] && J[i].status == IMB_STATUS_COMPLETED;
 #if MODE == 1 || MODE == 3
         __CPROVER_assume(!inflight[0]);
         J[0].status = IMB_STATUS_BEING_PROCESSED;
@@ -177,6 +182,9 @@ main(void)
         assert(Inv());                                                 /* nothing lost, nothing duplicated */
         assert(r == NULL || inflight[idx(r)]);
         assert(r == NULL || r->status == IMB_STATUS_COMPLETED);        /* K1 / C14: never a partial status */
+        for (int i = 0; i < NJ; i++)
+                done_after += inflight[i] && J[i].status == IMB_STATUS_COMPLETED;
+        assert(done_after == done_before + (r != NULL)); /* K1: exactly the returned job became COMPLETED, nobody else */
         assert(ranC[0] + ranH[0] >= 1);                                /* the submitted job entered its first stage */
         if (!sync_aead(&J[0])) {
                 if (J[0].chain_order == IMB_ORDER_CIPHER_HASH) assert(ranC[0] == 1);
